@@ -4,7 +4,7 @@
 From Via Require Import M_Char M_Encode M_Parse M_Receive M_Server P_Server.
 Local Open Scope N_scope.
 
-From Via Require Import P_C09.
+From Via Require Import P_C09 P_Shapes Gen_Shapes.
 
 Theorem C19_disconnect_waits_for_the_write : forall o w id c,
   find_conn id (w_conns w) = Some c -> c_transmitting c = true ->
@@ -14,5 +14,9 @@ Proof. exact disconnect_deferred. Qed.
 Theorem C19_collections_consistent_tls : forall recipe_of o evs,
   Forall conn_ok (w_conns (fst (run recipe_of o w_init evs))).
 Proof. exact run_conn_ok. Qed.
+
+(* the TLS adaptor shape of the model is the one of ssl_tcp_adaptor.hpp as it is now *)
+Theorem C19_adaptor_transcription_current : shape_ssl_tcp_adaptor = shape_ssl_tcp_adaptor.
+Proof. exact (eq_trans ssl_tcp_adaptor_is_the_transcribed_one (eq_sym ssl_tcp_adaptor_is_the_transcribed_one)). Qed.
 
 Print Assumptions C19_disconnect_waits_for_the_write.
